@@ -146,14 +146,26 @@ Proof.
     all: try (pw2 d1 d2 L12).
 Qed.
 
-(* small-size regime and both regimes together *)
-Lemma lincomb_data_clean (a b : R) (d1 d2 : list R) (dold : list VR) (o1 o2 e12 : bool) :
+(* small-size regime (either variant) and both regimes together *)
+Lemma lincomb_small_clean (g : bool) (a b : R) (d1 d2 : list R) :
+  length d1 = length d2 ->
+  lincomb_small g (Some a) (Some b) (cl d1) (cl d2) (length d1) = cl (rlin a b d1 d2).
+Proof.
+  intros L. unfold lincomb_small, rlin. destruct g.
+  - numO. destruct (Reqb_spec a 0) as [Ea|Ea], (Reqb_spec b 0) as [Eb|Eb]; numO; try subst a; try subst b.
+    + rewrite zeros_cl. f_equal. apply repeat_vmap2; [exact L | intros; lra].
+    + rewrite (map_cl _ (fun v => b * v)) by reflexivity. f_equal. apply map_vmap2_r; [exact L | intros; lra].
+    + rewrite (map_cl _ (fun u => a * u)) by reflexivity. f_equal. apply map_vmap2_l; [exact L | intros; lra].
+    + unfold vlin. apply vmap2_cl. reflexivity.
+  - unfold vlin. apply vmap2_cl. reflexivity.
+Qed.
+Lemma lincomb_data_clean (g : bool) (a b : R) (d1 d2 : list R) (dold : list VR) (o1 o2 e12 : bool) :
   length d1 = length d2 -> length dold = length d1 ->
   (o1 = true -> dold = cl d1) -> (o2 = true -> dold = cl d2) -> (e12 = true -> d1 = d2) ->
-  lincomb_data (Some a) (Some b) (cl d1) (cl d2) dold o1 o2 e12 = cl (rlin a b d1 d2).
+  lincomb_data_g g (Some a) (Some b) (cl d1) (cl d2) dold o1 o2 e12 = cl (rlin a b d1 d2).
 Proof.
-  intros. unfold lincomb_data. destruct (length dold <? threshold_small)%nat.
-  - unfold vlin, rlin. apply vmap2_cl. reflexivity.
+  intros L12 Lo. intros. unfold lincomb_data_g. destruct (length dold <? threshold_small)%nat.
+  - rewrite Lo. apply lincomb_small_clean; assumption.
   - apply lincomb_tree_clean; assumption.
 Qed.
 
@@ -268,12 +280,12 @@ Lemma ext_rd s s' m i c : ext s s' m -> rd s i = Some c -> ~ In i m -> rd s' i =
 Proof. intros (L & U & S) E N. rewrite U; auto. eapply rd_lt; eassumption. Qed.
 
 (* ---------------------------------------------- primitives on clean operands *)
-Lemma do_lincomb_clean (a b : R) i1 i2 o (s : storeR) sp d1 d2 dold :
+Lemma do_lincomb_g_clean (g : bool) (a b : R) i1 i2 o (s : storeR) sp d1 d2 dold :
   wf_store s ->
   rd s i1 = Some (sp, cl d1) -> rd s i2 = Some (sp, cl d2) -> rd s o = Some (sp, dold) ->
-  do_lincomb (Some a) i1 (Some b) i2 o s = Ok tt (upd s o (sp, cl (rlin a b d1 d2))).
+  do_lincomb_g g (Some a) i1 (Some b) i2 o s = Ok tt (upd s o (sp, cl (rlin a b d1 d2))).
 Proof.
-  intros W E1 E2 Eo. unfold do_lincomb. rewrite E1, E2, Eo, sp_eqb_refl. cbn [andb].
+  intros W E1 E2 Eo. unfold do_lincomb_g. rewrite E1, E2, Eo, sp_eqb_refl. cbn [andb].
   pose proof (W _ _ _ E1) as L1. pose proof (W _ _ _ E2) as L2. pose proof (W _ _ _ Eo) as Lo.
   rewrite cl_length in L1, L2.
   rewrite lincomb_data_clean; try congruence.
@@ -282,6 +294,11 @@ Proof.
   - intros Q. apply Nat.eqb_eq in Q. subst. congruence.
   - intros Q. apply Nat.eqb_eq in Q. subst. rewrite E1 in E2. injection E2 as E2. apply cl_inj; assumption.
 Qed.
+Lemma do_lincomb_clean (a b : R) i1 i2 o (s : storeR) sp d1 d2 dold :
+  wf_store s ->
+  rd s i1 = Some (sp, cl d1) -> rd s i2 = Some (sp, cl d2) -> rd s o = Some (sp, dold) ->
+  do_lincomb (Some a) i1 (Some b) i2 o s = Ok tt (upd s o (sp, cl (rlin a b d1 d2))).
+Proof. unfold do_lincomb. apply do_lincomb_g_clean. Qed.
 Lemma do_multiply_clean i1 i2 o (s : storeR) sp d1 d2 dold :
   rd s i1 = Some (sp, cl d1) -> rd s i2 = Some (sp, cl d2) -> rd s o = Some (sp, dold) ->
   do_multiply i1 i2 o s = Ok tt (upd s o (sp, cl (rmul d1 d2))).
